@@ -115,6 +115,7 @@ def run_selftest(props=None, seed=0, repo=None, verbose=True):
                     ok = False
                     print(f"SELFTEST false alarm on rewrite {vid} [{prop}]: {status} {rules} {sample}")
     print(f"selftest: {summary} in {time.time() - t0:.1f}s")
+    run_selftest.last_summary = dict(summary, variants=len(variants), wall_s=round(time.time() - t0, 1))
     return ok
 
 
